@@ -752,15 +752,6 @@ where
         R_: Registry,
     {
         if TypeId::of::<C>() == TypeId::of::<C_>() {
-            // The component being removed is still owned by the buffer. Read it out so that it is
-            // dropped here, rather than being leaked.
-            drop(
-                // SAFETY: The bit buffer is guaranteed to have a valid, properly initialized value
-                // of type `C` at this point because the components within the bit buffer are
-                // guaranteed to be ordered in the same order as the registry. The value is not
-                // read again.
-                unsafe { buffer.cast::<C>().read_unaligned() },
-            );
             // Skip this component in the buffer.
             buffer =
                 // SAFETY: The bit buffer is guaranteed to have a value of type `C` at this point
